@@ -151,7 +151,8 @@ func c02Body(c *explore.C, ff *flatFamily, tier universe.Tier) {
 	if !exp.OK || exp.N != len(want) {
 		panic(fmt.Sprintf("harness error: reference decoder rejects the reference encoding (%v) for %s", exp.Err, s))
 	}
-	expCanon := exp.V.Canon()
+	// the foreign readers have no notion of the unknown-fields holder: compare without it
+	expCanon := stripUnk(exp.V).Canon()
 	// cross-validate the reference encoder with both independent readers
 	for name, rd := range readers {
 		xv, n, err := rd(s, want)
@@ -383,4 +384,161 @@ func c16Body(c *explore.C, ff *flatFamily, tier universe.Tier) {
 	harness.Cur.Sample(func() interface{} {
 		return map[string]interface{}{"type": s.String(), "value": v.Short(), "snapshot_blocks": len(before.blocks)}
 	})
+}
+
+// stripUnk returns a copy of v without any retained unknown-field bytes.
+func stripUnk(v *ref.Val) *ref.Val {
+	c := v.Clone()
+	var rec func(x *ref.Val)
+	rec = func(x *ref.Val) {
+		if x == nil {
+			return
+		}
+		x.Unk = nil
+		for _, e := range x.L {
+			rec(e)
+		}
+		for _, e := range x.M {
+			rec(e[0])
+			rec(e[1])
+		}
+		for _, e := range x.F {
+			rec(e)
+		}
+	}
+	rec(c)
+	return c
+}
+
+// ---- C02 phase 2: types sharing one Go type but differing in list-vs-set somewhere ----
+
+// listSetNodes returns the list/set nodes of t in pre-order.
+func listSetNodes(t *ref.Type) []*ref.Type {
+	if t == nil {
+		return nil
+	}
+	var r []*ref.Type
+	if t.Kind == ref.KList || t.Kind == ref.KSet {
+		r = append(r, t)
+	}
+	r = append(r, listSetNodes(t.Key)...)
+	return append(r, listSetNodes(t.Elem)...)
+}
+
+// flipNode deep-copies t with its k-th list/set node (pre-order) flipped to the other kind.
+func flipNode(t *ref.Type, k *int) *ref.Type {
+	if t == nil {
+		return nil
+	}
+	c := *t
+	if t.Kind == ref.KList || t.Kind == ref.KSet {
+		if *k == 0 {
+			if t.Kind == ref.KList {
+				c.Kind = ref.KSet
+			} else {
+				c.Kind = ref.KList
+			}
+		}
+		*k--
+	}
+	c.Key = flipNode(t.Key, k)
+	c.Elem = flipNode(t.Elem, k)
+	return &c
+}
+
+func siblingFamily() *family {
+	return cached("siblings", func() *family {
+		f := &family{name: "list-set-siblings"}
+		for _, t := range append(universe.T(3), depth4Types()...) {
+			if len(listSetNodes(t)) > 0 {
+				f.items = append(f.items, universe.One(t, universe.FieldShell{Req: ref.ReqDefault}, 1))
+			}
+		}
+		return f
+	})
+}
+
+func init() {
+	ck := harness.Lookup("C02")
+	old := ck.Phases
+	ck.Phases = func(tier universe.Tier) []*harness.Phase {
+		return append(old(tier), &harness.Phase{
+			Name: "shared-go-type",
+			Rule: "every T3 type and 27 depth-4 types with a list/set node x each such node flipped list<->set (same Go type, different wire schema) x both registration orders x 3 values: both types used in one process must each encode per their own tags",
+			Body: func(c *explore.C) { c02Siblings(c, tier) },
+		})
+	}
+}
+
+func c02Siblings(c *explore.C, tier universe.Tier) {
+	fam := siblingFamily()
+	ti := c.Choose(len(fam.items), explore.Data, "type")
+	s1 := fam.items[ti]
+	nodes := listSetNodes(s1.Fields[0].Type)
+	k := c.Choose(len(nodes), explore.Data, "flipped-node")
+	swap := c.Bool(explore.Data, "sibling-first")
+	vals := valuesOf(s1, tier)
+	vi := c.Choose(3, explore.Data, "value")
+	harness.Cur.Crumb(c.Choices())
+	hooks.Reset()
+	kk := k
+	s2 := universe.One(flipNode(s1.Fields[0].Type, &kk), universe.FieldShell{Req: ref.ReqDefault}, 1)
+	// pick an informative value: the last ones of the alphabet are the populated containers
+	v := vals[len(vals)-1-vi%len(vals)]
+	order := []*ref.Struct{s1, s2}
+	if swap {
+		order = []*ref.Struct{s2, s1}
+	}
+	// the value tree fits both schemas (only list/set kinds differ): retag a copy per schema
+	for round := 0; round < 2; round++ {
+		for _, s := range order {
+			vv := retagVal(s.Fields[0].Type, v.F[0])
+			sv := &ref.Val{K: ref.KStruct, F: []*ref.Val{vv}}
+			want := ref.Encode(s, sv)
+			buf := make([]byte, len(want)+16)
+			r := Enc(buf, universe.New(s, sv).Interface())
+			if r.Panic != nil || r.Err != nil {
+				c.Fail(fmt.Sprintf("EncodeObject failed: %v", r), mkCase("C02", "encode-failed", s, sv, nil, nil))
+				return
+			}
+			gc, err := ref.Canonical(buf[:r.N])
+			wc, _ := ref.Canonical(want)
+			if err != nil || !bytes.Equal(gc, wc) {
+				c.Fail(fmt.Sprintf("after another type with the same Go type (%s) was used, the encoding no longer follows this type's own tags", universe.StructGoType(s).Field(0).Type),
+					mkCase("C02", "bytes-mismatch-shared-go-type", s, sv, buf[:r.N], map[string]interface{}{"reference": hx(want), "other_type": order[0].String() + " | " + order[1].String()}))
+				return
+			}
+		}
+	}
+	harness.Cur.Evals(4)
+	harness.Cur.Outcome(harness.Hash64(tiKey(ti), []byte{byte(k), byte(vi)}, []byte(fmt.Sprint(swap))), "siblings")
+	harness.Cur.Sample(func() interface{} { return map[string]string{"type": s1.String(), "sibling": s2.String()} })
+}
+
+// retagVal copies v, setting container kinds to those of t.
+func retagVal(t *ref.Type, v *ref.Val) *ref.Val {
+	if v == nil {
+		return nil
+	}
+	c := *v
+	c.K = t.Kind
+	if v.L != nil {
+		c.L = make([]*ref.Val, len(v.L))
+		for i, e := range v.L {
+			c.L[i] = retagVal(t.Elem, e)
+		}
+	}
+	if v.M != nil {
+		c.M = make([][2]*ref.Val, len(v.M))
+		for i, e := range v.M {
+			c.M[i] = [2]*ref.Val{retagVal(t.Key, e[0]), retagVal(t.Elem, e[1])}
+		}
+	}
+	if t.Kind == ref.KStruct && v.F != nil {
+		c.F = make([]*ref.Val, len(v.F))
+		for i, e := range v.F {
+			c.F[i] = retagVal(t.St.Fields[i].Type, e)
+		}
+	}
+	return &c
 }
